@@ -1,0 +1,50 @@
+//go:build verif
+
+package grpc
+
+// Contracts for govc (see /verif/DESIGN.md). Comments only.
+//
+// C16 ("a request that is answered with an error leaves everything unchanged", for the server with its production
+// interceptor chain): the unary fault-injection interceptor either rejects a request before the wrapped handler runs,
+// or answers with exactly what the handler answered. An injected fault can therefore never turn a request that was
+// already carried out into an error.
+
+//@ func splitMethodName(fullMethodName) (service, method)
+//@   trusted
+//@   modifies nothing
+
+// builds the parameter map of a request by protobuf reflection (not modelled): some non-nil map
+//@ func paramsFromProtoMessage(service, method, req) (params)
+//@   trusted
+//@   ensures params != nil
+//@   modifies MH:string:string, MV:string:string:
+
+//@ func UnaryFaultInjector$1(ctx, req, info, handler) (resp, err)
+//@   property C16
+//@   uses faultspec grpcspec
+//@   requires info != nil && s != nil && set_wf(s) && !handler_called()
+//@   ensures answer_is_the_handlers: handler_called() ==> err == handler_err()
+//@   modifies *
+
+// the wrapped handler: arbitrary effects on program state; it cannot reach the interceptor's own locals
+//@ func UnaryFaultInjector$1.param.handler(ctx, req) (resp, err)
+//@   abstract
+//@   option unreachable locals
+//@   ghostset handler_called := true
+//@   ghostset handler_err := err
+//@   modifies F:*, B:*, E:*, T:*, MH:*, MV:*, G:*, CB:*, S:dbfailed, S:wake_on_commit, S:wake_requested, S:closed, S:onfault_calls, S:lastmatch
+
+// the same for streams: a fault injected at the start of a stream rejects it before the stream handler runs
+//@ func StreamFaultInjector$1(srv, ss, info, handler) (err)
+//@   property C16
+//@   uses faultspec grpcspec
+//@   requires info != nil && s != nil && set_wf(s) && !handler_called()
+//@   ensures answer_is_the_handlers: handler_called() ==> err == handler_err()
+//@   modifies *
+
+//@ func StreamFaultInjector$1.param.handler(srv, stream) (err)
+//@   abstract
+//@   option unreachable locals
+//@   ghostset handler_called := true
+//@   ghostset handler_err := err
+//@   modifies F:*, B:*, E:*, T:*, MH:*, MV:*, G:*, CB:*, S:dbfailed, S:wake_on_commit, S:wake_requested, S:closed, S:onfault_calls, S:lastmatch
